@@ -316,6 +316,76 @@ func c10sched(c *core.Ctx) {
 			vsched.Logf("ok")
 		}})
 	}
+	// (5) as (4), and the older connection unsubscribes the filter the newer one subscribed
+	// (UNSUBACK received): the filter is out of the session, whichever connection's entry in
+	// the subscription tree it was; the next CleanSession=0 connection does not have it
+	for _, olderFirst := range []bool{true, false} {
+		olderFirst := olderFirst
+		nm := "the newer one is cut first"
+		if olderFirst {
+			nm = "the older one is cut first"
+		}
+		scs = append(scs, scen{"two connections share a persistent session; the older one unsubscribes the newer one's filter; " + nm, func() {
+			t := newTD()
+			p := t.connect("P", 0, 65535, false)
+			x1, _ := connectAs(t, "X1", "x", false)
+			if x1 == nil {
+				return
+			}
+			subscribeAs(t, x1, 1, "a", 1)
+			x2, _ := connectAs(t, "X2", "x", false)
+			if x2 == nil {
+				return
+			}
+			subscribeAs(t, x2, 2, "b", 1)
+			x1.Send(&refcodec.Packet{Type: refcodec.UNSUBSCRIBE, ID: 3, Topics: [][]byte{[]byte("b")}})
+			t.w.Settle()
+			if ps := x1.Take(); len(ps) != 1 || ps[0].Type != refcodec.UNSUBACK || ps[0].ID != 3 {
+				vsched.Failf("UNSUBSCRIBE(b) on the older connection answered by %s", Describe(ps))
+				return
+			}
+			if vsched.Failed() {
+				return
+			}
+			vsched.Mark()
+			if olderFirst {
+				x1.Cut()
+				t.w.Settle()
+				x2.Cut()
+			} else {
+				x2.Cut()
+				t.w.Settle()
+				x1.Cut()
+			}
+			t.w.Settle()
+			x3, ack := connectAs(t, "X3", "x", false)
+			if x3 == nil {
+				return
+			}
+			if !ack.SessionPresent {
+				vsched.Failf("%s: the next CleanSession=0 CONNECT got SessionPresent=0", nm)
+				return
+			}
+			for i, f := range []string{"a", "b"} {
+				pl := "probe-" + f
+				p.rc.Send(&refcodec.Packet{Type: refcodec.PUBLISH, Topic: []byte(f), QoS: 1, ID: uint16(95 + i), Payload: []byte(pl)})
+				t.w.Settle()
+				n, _ := count(x3.Take(), f, pl)
+				want := 1
+				if f == "b" {
+					want = 0
+				}
+				if n != want {
+					vsched.Failf("%s: filter %q (b was unsubscribed with an UNSUBACK, a was not): the resuming connection received a probe on it %d times, expected %d", nm, f, n, want)
+					return
+				}
+			}
+			if t.badStream() {
+				return
+			}
+			vsched.Logf("ok")
+		}})
+	}
 	for _, sc := range scs {
 		if c.Expired() || c.HasViolation() {
 			return
